@@ -43,9 +43,16 @@ def run():
     # (an inconclusive run -- tool missing, timeout -- is reported and tolerated: the symbolic instance is an addition to TLC)
     for module, inv in (("Apa_Limiters", "InvBad"), ("Apa_Limiters", "InvBad2"), ("Apa_Scalar", "InvBadCfl"), ("Apa_Scalar", "InvBadRegion"),
                         ("Apa_Fluxes", "InvBadHll"), ("Apa_Fluxes", "InvBadBurgers"), ("Apa_Implicit", "InvBadExplicit"),
-                        ("Apa_Vars", "InvBadEnthalpy2D")):
+                        ("Apa_Vars", "InvBadEnthalpy2D"),
+                        ("Apa_Positivity", "InvBadCfl"), ("Apa_Positivity", "InvBadHll"),
+                        ("Apa_Speeds", "InvBadEigen")):
         v, _w = core.apalache(module, inv, timeout=300)
         say(v != "NoError", "Apalache: %s of %s is %s" % (inv, module, "refuted" if v == "Error" else v))
+    for init, inv, what in (("InitBad", "InvNoneMissed", "one snapshot per iteration (D01) loses a requested time"),
+                            ("Init", "InvVacThree", "three snapshots in one run are reachable"),
+                            ("Init", "InvVacTwoInOne", "two snapshots in one iteration are reachable")):
+        v, _w = core.apalache("Apa_Driver", inv, timeout=300, init=init, length=5)
+        say(v != "NoError", "Apalache: Apa_Driver %s: %s" % (what, "refuted" if v == "Error" else v))
     # 3. binding: corrupted event traces recorded from the real code are rejected by Trace_Driver
     try:
         from . import driver_obs as D, driver_trace
